@@ -24,7 +24,9 @@ import (
 	"github.com/hujm2023/go-sms-protocol/logger"
 	"github.com/hujm2023/go-sms-protocol/sgip"
 	"github.com/hujm2023/go-sms-protocol/smgp"
+	"github.com/hujm2023/go-sms-protocol/smgp/smgp30"
 	"github.com/hujm2023/go-sms-protocol/smpp"
+	"github.com/hujm2023/go-sms-protocol/smpp/smpp34"
 	"pgregory.net/rapid"
 
 	"verifharness/gen"
@@ -122,6 +124,23 @@ func exec(op Op) string {
 		if op.U&1 == 1 {
 			// candidate lists as callers build them: with repeats, and with the original coding named again
 			list = append(list, list[int(op.U>>1)%len(list)], list[int(op.U>>5)%len(list)])
+		}
+		parts, act, err := sms.NewBatchDataCodingEncoder().Protocol(pr).Content(text, byte(op.U)).DataCodings(list).Build(ctx)
+		return digest(append(parts, []byte(fmt.Sprint(act, err)))...)
+	case "ctorbytes":
+		// the ready-made frame constructors: they take nothing but a sequence number
+		seq := uint32(op.U)
+		return digest(smpp34.NewEnquireLinkReqBytes(seq), smpp34.NewEnquireLinkRespBytes(seq+1), smpp34.NewUnBindBytes(seq+2), smpp34.NewUnBindRespBytes(seq+3),
+			smpp34.NewDeliverySMRespBytes(seq+4), cmpp20.NewActiveTestPacket(seq+5), cmpp20.NewTerminatePacket(seq+6), smgp30.NewActiveTestPacket(seq+7),
+			[]byte(fmt.Sprint(sgip.Timestamp(time.Unix(int64(1700000000+op.U%100000), 0).UTC()))))
+	case "batchlong":
+		// a content of more than 16 KiB with every coding of the protocol as candidate, from many goroutines at once
+		text := strings.Repeat(string(vk.UnHex(op.Text))+" ", 1+17000/(len(op.Text)/2+1))
+		pr := sms.CMPP
+		list := []dc.ProtocolDataCoding{dc.CMPP_CODING_UCS2, dc.CMPP_CODING_GBK, dc.CMPP_CODING_ASCII, dc.CMPP_CODING_UCS2_NO_SIGN}
+		if op.Proto == "smpp" {
+			pr = sms.SMPP
+			list = []dc.ProtocolDataCoding{dc.SMPP_CODING_UCS2, dc.SMPP_CODING_GSM7_PACKED, dc.SMPP_CODING_GSM7_UNPACKED, dc.SMPP_CODING_ASCII, dc.SMPP_CODING_Latin1}
 		}
 		parts, act, err := sms.NewBatchDataCodingEncoder().Protocol(pr).Content(text, byte(op.U)).DataCodings(list).Build(ctx)
 		return digest(append(parts, []byte(fmt.Sprint(act, err)))...)
@@ -294,7 +313,7 @@ var overflowText = strings.Repeat("a", 17200)
 var hugeText = strings.Repeat("0123456789abcdef中", 2100)
 
 var opGen = rapid.Custom(func(t *rapid.T) Op {
-	k := rapid.SampledFrom([]string{"encode", "encode", "encodebad", "decode", "decode", "string", "string", "split", "batch", "batchlog", "content", "gsm7", "msgid", "names", "names", "ucs2", "period"}).Draw(t, "k")
+	k := rapid.SampledFrom([]string{"encode", "encode", "encodebad", "decode", "decode", "string", "string", "split", "batch", "batchlog", "content", "gsm7", "msgid", "names", "names", "ucs2", "period", "ctorbytes"}).Draw(t, "k")
 	op := Op{K: k, U: rapid.Uint64().Draw(t, "u"), Yield: rapid.IntRange(0, 3).Draw(t, "yield") == 0}
 	switch k {
 	case "encodebad":
@@ -427,12 +446,38 @@ func runHot(c HotCase) *vk.Violation {
 	return nil
 }
 
+// hotLimit: a hot loop takes a few seconds at most; one that has not finished after two minutes is stuck
+// (goroutines waiting for each other inside the library), not slow.
+const hotLimit = 2 * time.Minute
+
+func runHotTimed(c HotCase) *vk.Violation {
+	done := make(chan *vk.Violation, 1)
+	go func() {
+		defer func() {
+			if r := recover(); r != nil {
+				done <- vk.Violf("hot-loop/panic", c, "panic: %v", r)
+			}
+		}()
+		done <- runHot(c)
+	}()
+	select {
+	case v := <-done:
+		return v
+	case <-time.After(hotLimit):
+		kind := "?"
+		if len(c.Ops) > 0 {
+			kind = c.Ops[0].K
+		}
+		return vk.Violf("hot-loop/"+kind+"/goroutines-stuck", c, "%d goroutines calling %s concurrently have not all returned after %v: calls that return at once when run alone wait for each other inside the library", c.G, kind, hotLimit)
+	}
+}
+
 func init() {
 	reg["hot"] = func(raw json.RawMessage) *vk.Violation {
 		var c HotCase
 		_ = json.Unmarshal(raw, &c)
 		for i := 0; i < 20; i++ {
-			if v := runHot(c); v != nil {
+			if v := runHotTimed(c); v != nil {
 				return v
 			}
 		}
@@ -442,7 +487,7 @@ func init() {
 
 func TestHotLoops(t *testing.T) {
 	rapid.Check(t, func(t *rapid.T) {
-		kind := rapid.SampledFrom([]string{"msgid", "msgid", "names", "period", "ucs2", "gsm7", "content", "split", "string", "encode", "batchlog"}).Draw(t, "kind")
+		kind := rapid.SampledFrom([]string{"msgid", "msgid", "names", "period", "ucs2", "gsm7", "content", "split", "string", "encode", "batchlog", "ctorbytes", "ctorbytes", "batchlong"}).Draw(t, "kind")
 		c := HotCase{Procs: rapid.SampledFrom([]int{2, 4, 8, 16}).Draw(t, "gomaxprocs"), G: rapid.SampledFrom([]int{2, 3, 4, 8}).Draw(t, "goroutines")}
 		n := rapid.IntRange(2, 3).Draw(t, "nops")
 		for len(c.Ops) < n {
@@ -472,19 +517,22 @@ func TestHotLoops(t *testing.T) {
 			op.Yield = false
 			c.Ops = append(c.Ops, op)
 		}
-		c.Iters = map[string]int{"msgid": 8000, "names": 1500, "period": 3000, "batchlog": 120}[kind]
+		c.Iters = map[string]int{"msgid": 5000, "names": 800, "period": 2000, "batchlog": 30, "ctorbytes": 1200, "batchlong": 3}[kind]
+		if kind == "batchlong" {
+			c.G = rapid.SampledFrom([]int{48, 64}).Draw(t, "manygoroutines") // the top of the stated range of 2..64 goroutines
+		}
 		if c.Iters == 0 {
-			c.Iters = 600
+			c.Iters = 250
 		}
 		for _, op := range c.Ops {
 			if len(op.Text) > 100000 {
-				c.Iters = 60
+				c.Iters = 12
 			}
 		}
 		rec.Eval()
 		j, _ := json.Marshal(c)
 		rec.NonTrivial("hot", j)
 		rec.Class("hot_loop:" + kind)
-		rec.Report(t, "hot", runHot(c))
+		rec.Report(t, "hot", runHotTimed(c))
 	})
 }
